@@ -155,7 +155,9 @@ class SystemClock: public Clock {
     void syncNow(acetime_t epochSeconds) {
       if (epochSeconds == kInvalidSeconds) return;
       mLastSyncTime = epochSeconds;
-      if (mEpochSeconds == epochSeconds) return;
+      // Compare against the current time, not the value cached by the last
+      // getNow(), which may be many seconds old.
+      if (getNow() == epochSeconds) return;
 
       mEpochSeconds = epochSeconds;
       mPrevMillis = clockMillis();
